@@ -12,31 +12,33 @@ import Xandikos.Base
 namespace Xandikos.Store.Index
 open Xandikos
 
-/-- index values of one file for a list of keys: key ↦ list of values (opaque strings) -/
-abbrev Values := List (String × List String)
+/-- index values of one file for a list of keys: key ↦ list of values; the value type `V` is a
+    parameter (opaque strings for the abstract state machine, `Ical.IVal` for the concrete
+    iCalendar instance of `Theorems/C10Ical.lean`) -/
+abbrev Values (V : Type) := List (String × List V)
 
-structure Params (F : Type) where
+structure Params (F V : Type) where
   /-- `filter.index_keys()`: AND-list of OR-options -/
   keysOf : F → List (List String)
   /-- `file.get_indexes(keys)` for the blob with this etag (a function of the content) -/
-  getIdx : String → List String → Values
+  getIdx : String → List String → Values V
   /-- `filter.check_from_indexes(name, values)` -/
-  checkIdx : F → Values → Bool
+  checkIdx : F → Values V → Bool
   /-- `filter.check(name, file)` -/
   checkNaive : F → String → Bool
 
 /-- `MemoryIndex`: the available keys and, per etag in `_in_index`, the values that were added -/
-structure MemIndex where
+structure MemIndex (V : Type) where
   keys : List String := []
-  vals : Map Values := ∅
+  vals : Map (Values V) := ∅
 
 /-- `AutoIndexManager` -/
 structure Manager where
   desired : Map Nat := ∅
   threshold : Nat := 5
 
-structure IState where
-  idx : MemIndex := {}
+structure IState (V : Type) where
+  idx : MemIndex V := {}
   mgr : Manager := {}
 
 /-- `self.desired[key] += 1; if self.desired[key] > threshold: new_index_keys.add(key)` -/
@@ -56,7 +58,8 @@ def groupStep (avail : List String) (threshold : Nat)
       (group.foldl (bump threshold) (acc.2.2.1, acc.2.2.2)).2)
 
 /-- `AutoIndexManager.find_present_keys(necessary_keys)`: `some keys` = use the index -/
-def findPresentKeys (s : IState) (necessary : List (List String)) : IState × Option (List String) :=
+def findPresentKeys {V : Type} (s : IState V) (necessary : List (List String)) :
+    IState V × Option (List String) :=
   let r := necessary.foldl (groupStep s.idx.keys s.mgr.threshold) ([], [], [], s.mgr.desired)
   let mgr' := { s.mgr with desired := r.2.2.2 }
   if r.2.1.isEmpty then ({ s with mgr := mgr' }, some r.1)
@@ -67,12 +70,12 @@ def findPresentKeys (s : IState) (necessary : List (List String)) : IState × Op
   else ({ s with mgr := mgr' }, none)
 
 /-- restriction of stored values to the requested keys (`MemoryIndex.get_values`) -/
-def restrict (v : Values) (keys : List String) : Values :=
+def restrict {V : Type} (v : Values V) (keys : List String) : Values V :=
   keys.map fun k => (k, (v.lookup k).getD [])
 
 /-- `_iter_with_filter_indexes` over the listed (name, etag) pairs -/
-def iterIndexes {F : Type} (P : Params F) (f : F) (keys : List String)
-    (idx : MemIndex) : List (String × String) → MemIndex × List String
+def iterIndexes {F V : Type} (P : Params F V) (f : F) (keys : List String)
+    (idx : MemIndex V) : List (String × String) → MemIndex V × List String
   | [] => (idx, [])
   | (name, etag) :: rest =>
     match idx.vals[etag]? with
@@ -86,12 +89,12 @@ def iterIndexes {F : Type} (P : Params F) (f : F) (keys : List String)
       let (idx', out) := iterIndexes P f keys idx₁ rest
       (idx', if P.checkIdx f v then name :: out else out)
 
-def iterNaive {F : Type} (P : Params F) (f : F) (files : List (String × String)) : List String :=
+def iterNaive {F V : Type} (P : Params F V) (f : F) (files : List (String × String)) : List String :=
   (files.filter fun p => P.checkNaive f p.2).map (·.1)
 
 /-- `Store.iter_with_filter(filter)` on the listed members of the filter's content type -/
-def iterWithFilter {F : Type} (P : Params F) (s : IState) (f : F) (files : List (String × String)) :
-    IState × List String :=
+def iterWithFilter {F V : Type} (P : Params F V) (s : IState V) (f : F) (files : List (String × String)) :
+    IState V × List String :=
   match findPresentKeys s (P.keysOf f) with
   | (s', some keys) =>
     let (idx', out) := iterIndexes P f keys s'.idx files
